@@ -15,13 +15,8 @@
 #include "vharness.h"
 
 int g_errors_printed;	/* "(Error)" lines printed so far */
-int g_file_errors;
 int g_interactive;
 int g_n;		/* ghost choice: the number of errors this run prints */
-int cmdFileCount;
-typedef struct emitInfo *EmitInfo;
-typedef struct stab *Stab;
-EmitInfo *compFinfov;
 #define C_MAIN_ONLY
 #include "c_main.h"
 
